@@ -216,7 +216,7 @@ def run_check(pid, modname, tier, argv=()):
     os.environ[GUARD] = "1"
     seed = int(os.environ.get("VERIF_SEED", "0") or 0)
     nproc = int(os.environ.get("VERIF_PROCS", "0") or 0) or min(16, os.cpu_count() or 1)
-    max_s = float(os.environ.get("VERIF_MAX_S", "2400" if tier == "quick" else "14400"))
+    max_s = float(os.environ.get("VERIF_MAX_S", "2400" if tier == "quick" else "7200"))
     load_construct()
     mod = importlib.import_module(modname)
     units = list(mod.units(tier))
